@@ -391,7 +391,7 @@ namespace TAO_PEGTL_NAMESPACE
       template< typename ParseInput >
       [[nodiscard]] static bool match( ParseInput& in ) noexcept( noexcept( in.empty() ) )
       {
-         return parse< signed_rule_new >( in );  // Does not check for any overflow.
+         return parse< signed_rule_new, nothing, normal, apply_mode::nothing, rewind_mode::required >( in );  // Does not check for any overflow.
       }
    };
 
@@ -424,7 +424,7 @@ namespace TAO_PEGTL_NAMESPACE
                 typename... States >
       [[nodiscard]] static auto match( ParseInput& in, States&&... /*unused*/ ) noexcept( noexcept( in.empty() ) ) -> std::enable_if_t< A == apply_mode::nothing, bool >
       {
-         return parse< signed_rule_new >( in );  // Does not check for any overflow.
+         return parse< signed_rule_new, nothing, normal, apply_mode::nothing, rewind_mode::required >( in );  // Does not check for any overflow.
       }
 
       template< apply_mode A,
@@ -437,7 +437,7 @@ namespace TAO_PEGTL_NAMESPACE
                 typename Signed >
       [[nodiscard]] static auto match( ParseInput& in, Signed& st ) -> std::enable_if_t< ( A == apply_mode::action ) && std::is_signed_v< Signed >, bool >
       {
-         return parse< signed_rule_new, internal::signed_action_action >( in, st );  // Throws on overflow.
+         return parse< signed_rule_new, internal::signed_action_action, normal, apply_mode::action, rewind_mode::required >( in, st );  // Throws on overflow.
       }
    };
 
